@@ -305,7 +305,7 @@ def xorshift_theorems(u, done):
     return [(f"XorShiftRng.{fn}", stmt, props, fn) for fn, stmt, props in pairs if fn in done]
 
 PROOFS = {
-    "f1": "ext_tie_step", "f2": "ext_tie_step",
+    "f1": "ext_tie_hc_fn", "f2": "ext_tie_hc_fn",
     "stir_pool": "ext_tie_stir", "lfsr": "ext_tie_lfsr", "stuck": "ext_tie_step",
     # tactic scripts tried in order (first | …); `rfl` is by far the common case: the translation unfolds to the model
     "next_u32": "ext_tie_step", "next_u64": "ext_tie_step", "fill_bytes": "ext_tie_fill", "jump": "ext_tie_jump",
@@ -322,6 +322,10 @@ def _unf(G):
     """simp arguments that unfold the helper functions of unit G"""
     return "".join(f", Ext.{G}.{h}" for h in HELPERS.get(G, []))
 
+def _unfold_helpers(G):
+    """tactics that unfold the extracted helpers of unit G where they occur (lets are kept: no zeta)"""
+    return "".join(f"; try unfold Ext.{G}.{h}" for h in HELPERS.get(G, []))
+
 def _hc_helpers():
     return ("\n  have hp : Ext.Hc128Core.step_p = Hc128.stepPC := by\n    funext st i i511 i3 i10 i12; exact ExtTie.Hc128Core.step_p st i i511 i3 i10 i12"
             "\n  have hq : Ext.Hc128Core.step_q = Hc128.stepQC := by\n    funext st i i511 i3 i10 i12; exact ExtTie.Hc128Core.step_q st i i511 i3 i10 i12")
@@ -333,7 +337,7 @@ def proof_hc_generate(name):
                 "\n           from rfl).trans (by rw [hp, hq]; exact ExtShape.Hc128Core.generate_eq st results)")
     return ("\n  intro st results" + _hc_helpers() +
             "\n  rw [Hc128.generate_hoisted]"
-            "\n  simp only [Ext.Hc128Core.generate" + _unf("Hc128Core") + ", hp, hq, Hc128.blockWith, Hc128.TABLE, List.foldl, Hc128.idx, Hc128.bases, Hc128.USIZE]"
+            "\n  simp only [Ext.Hc128Core.generate" + _unf("Hc128Core") + ", hp, hq, Hc128.blockWith, Hc128.TABLE, List.foldl, Hc128.idx, Hc128.bases, Hc128.USIZE, and_15, and_511, and_1023]"
             "\n  split <;> simp only [Hc128.stepPC_counter, Hc128.stepQC_counter, Nat.add_zero]")
 
 def proof_hc_sixteen(name):
@@ -343,7 +347,7 @@ def proof_hc_sixteen(name):
                 "\n           from rfl).trans (by rw [hp, hq]; exact ExtShape.Hc128Core.sixteen_steps_eq st)")
     return ("\n  intro st" + _hc_helpers() +
             "\n  rw [Hc128.sixteenSteps_hoisted]"
-            "\n  simp only [Ext.Hc128Core.sixteen_steps" + _unf("Hc128Core") + ", hp, hq, Hc128.feedWith, Hc128.TABLE, List.foldl, Hc128.idx, Hc128.bases, Hc128.USIZE]"
+            "\n  simp only [Ext.Hc128Core.sixteen_steps" + _unf("Hc128Core") + ", hp, hq, Hc128.feedWith, Hc128.TABLE, List.foldl, Hc128.idx, Hc128.bases, Hc128.USIZE, and_15, and_511, and_1023]"
             "\n  split <;> simp only [Hc128.stepPC_counter, Hc128.stepQC_counter, Nat.add_zero]")
 
 def proof_hc_init(name):
@@ -352,7 +356,7 @@ def proof_hc_init(name):
             "\n  simp only [Ext.Hc128Core.init" + _unf("Hc128Core") + ", ExtTie.Hc128Fns.f1, ExtTie.Hc128Fns.f2, h16, Hc128.init, foldl_range'_add, ← BitVec.ofNat_add,"
             "\n    Hc128.expandAt, Nat.reduceAdd, Nat.reduceSub, List.take, List.drop, List.cons_append, List.nil_append, List.foldl_cons,"
             "\n    List.foldl_nil, BitVec.ofNat_eq_ofNat, wr_wr_sort, wr_wr_same, Nat.reduceLT]"
-            "\n  first | done | rfl")
+            "\n  first | done | bounded 100 => rfl | (ac_nf; first | done | bounded 100 => rfl)")
 
 def proof_hc_from_seed(name):
     return ("\n  intro seed"
@@ -370,6 +374,7 @@ def proof_isaac(fn):
                     f"\n  have e : Ext.{G}.generate st results = ExtShape.{G}.generate Ext.{G}.rngstep st results := by"
                     f"\n    first"
                     f"\n    | bounded 100 => rfl"
+                    f"\n    | bounded 400 => (unfold Ext.{G}.generate ExtShape.{G}.generate{_unfold_helpers(G)}; ac_nf; first | done | bounded 100 => rfl)"
                     f"\n    | (simp only [Ext.{G}.generate{_unf(G)}, ExtShape.{G}.generate]; ac_nf; first | done | bounded 100 => rfl)"
                     f"\n  exact e.trans (by rw [hr]; exact ExtShape.{G}.generate_eq st results)")
         if fn == "init":
@@ -379,7 +384,9 @@ def proof_isaac(fn):
                     f"\n  have e : Ext.{G}.init mem rounds = ExtShape.{G}.init Ext.{G}.mix mem rounds := by"
                     f"\n    first"
                     f"\n    | bounded 100 => rfl"
-                    f"\n    | (simp only [Ext.{G}.init{_unf(G)}, ExtShape.{G}.init]; ac_nf; first | done | bounded 100 => rfl)"
+                    f"\n    | bounded 400 => (unfold Ext.{G}.init ExtShape.{G}.init{_unfold_helpers(G)}; ac_nf; first | done | bounded 100 => rfl)"
+                    f"\n    | bounded 1000 => (simp only [Ext.{G}.init{_unf(G)}, ExtShape.{G}.init, wr_wr_sort, wr_wr_same, Nat.add_lt_add_iff_left,"
+                    f"\n        Nat.lt_add_right_iff_pos, Nat.reduceLT]; ac_nf; first | done | bounded 100 => rfl)"
                     f"\n  exact e.trans (by rw [hm]; exact ExtShape.{G}.init_eq mem rounds)")
         if fn in ("from_rng", "try_from_rng"):
             return (f"\n  intro ρ fill src"
@@ -405,8 +412,8 @@ def proof_isaac_rngstep(name):
     w = 64 if "64" in G else 32
     return (f"\n  intros"
             f"\n  simp only [Ext.{G}.rngstep{_unf(G)}, ExtTie.{G}.ind, Isaac.rngstep, Isaac.params{w}, Isaac.RAND_SIZE, Isaac.RAND_SIZE_LEN,"
-            f"\n    Nat.reduceAdd, Nat.reduceLT, Nat.reduceSub, BitVec.add_assoc]"
-            f"\n  first | done | rfl | ac_rfl")
+            f"\n    Nat.reduceAdd, Nat.reduceLT, Nat.reduceSub, BitVec.add_assoc, Nat.sub_sub]"
+            f"\n  first | done | bounded 100 => rfl | ac_rfl")
 PROOFS["isaac_rngstep"] = proof_isaac_rngstep
 
 def _proof_from_rng(name):
